@@ -224,6 +224,10 @@ def suite_antimeridian(ctx, pool=None, n_clouds=None, suite="antimeridian"):
         lon, lat = lon[fin], lat[fin]
         # positions of the data in the requested CRS (EPSG:4326: the lon/lats themselves)
         xs, ys = (lon, lat) if pool is None else _project(crs, lon, lat)
+        # what the model is fed: the x positions in the requested CRS (the code wraps *those*, `xarr % 360`; for a datum with a shift
+        # against WGS 84 they differ from the given longitudes by the shift), missing navigation kept as NaN
+        x_all = lon_all.copy()
+        x_all[fin] = xs
         for amode in ("modify_extents", "modify_crs", "global_extents"):
             for mode, value in (("resolution", r.choice([0.25, 0.5, 1.0])), ("shape", (r.randrange(2, 14), r.randrange(2, 30)))):
                 container = r.choice(["numpy", "dask", "swath"])
@@ -270,9 +274,14 @@ def suite_antimeridian(ctx, pool=None, n_clouds=None, suite="antimeridian"):
                         xa, ya = _project(area.crs, lon, lat)
                         want_crs = pyproj.CRS(crs)
                     shift = 180.0 if amode == "modify_crs" else 0.0
+                    # modify_crs re-expresses the CRS with +pm=180; PROJ cannot attach a named datum (NAD83, ETRS89, ...) to a moved prime
+                    # meridian, so the datum becomes "unknown based on <ellipsoid>" and positions differ from the requested CRS by that datum's
+                    # shift against WGS 84 (decimetres to metres, only inside the shift's area of use).  That is inherent in the documented
+                    # mode, not a wrong CRS: 1e-4 degrees there, exact agreement in the modes that keep the CRS object
+                    ptol = 1e-4 if amode == "modify_crs" else 1e-9
                     if not area.crs.is_geographic:
                         probs.append(f"the area is not in a geographic CRS: {area.crs.to_proj4()}")
-                    elif not (np.allclose((xa - xs + shift + 180) % 360 - 180, 0, rtol=0, atol=1e-9) and np.allclose(ya, ys, rtol=0, atol=1e-9)):
+                    elif not (np.allclose((xa - xs + shift + 180) % 360 - 180, 0, rtol=0, atol=ptol) and np.allclose(ya, ys, rtol=0, atol=ptol)):
                         probs.append(f"the area is not in the requested CRS: its CRS {area.crs.to_proj4()} puts the points elsewhere")
                     elif (abs(area.crs.ellipsoid.semi_major_metre - want_crs.ellipsoid.semi_major_metre) > 1e-6
                           or abs(area.crs.ellipsoid.semi_minor_metre - want_crs.ellipsoid.semi_minor_metre) > 1e-6):
@@ -290,7 +299,7 @@ def suite_antimeridian(ctx, pool=None, n_clouds=None, suite="antimeridian"):
                     ctx.fail("DynamicAreaDefinition.freeze(antimeridian_mode)", "; ".join(probs), inp, {"extent": ext, "shape": [area.height, area.width]},
                              tags={"amode": amode, "mode": mode}, size=n)
                 if ctx.M and amode != "global_extents":
-                    rep = ctx.M.ask("anti", 180 if amode == "modify_crs" else 0, ["nan" if np.isnan(v) else Fraction(float(v)) for v in lon_all]).split()
+                    rep = ctx.M.ask("anti", 180 if amode == "modify_crs" else 0, ["nan" if np.isnan(v) else Fraction(float(v)) for v in x_all]).split()
                     # corner centres from the model -> through the model's domain computation
                     xmin, xmax = Fraction(rep[0]), Fraction(rep[1])
                     ymin, ymax = Fraction(float(ys.min())), Fraction(float(ys.max()))
@@ -505,6 +514,77 @@ def suite_given(ctx):
     ctx.case("given", "extent+shape", nontrivial=True)
 
 
+def suite_plan(ctx):
+    """what `freeze` keeps of what it was given (statement: "explicitly given extent/shape are kept"): the real `freeze` on instances and
+    arguments with every combination of given / missing resolution, shape, single dimensions and extent, against the model's `freezePlan`
+    (tied to the source by `tie_freeze_plan`) and against the statement itself: kept means bit-identical extent and the given shape, wherever
+    the data lie"""
+    from pyresample.geometry import DynamicAreaDefinition
+    r = ctx.rng
+    crs = {"proj": "laea", "lat_0": 55, "lon_0": 15, "ellps": "WGS84"}
+    n = 60 if ctx.quick else 600
+    for _ in range(n):
+        self_res = r.choice([None, None, None, None, 1000.0, 2500.0])
+        arg_res = r.choice([None, None, None, None, 500.0, 4000.0])
+        self_h, self_w = r.choice([(None, None), (None, None), (5, 7), (9, 4), (6, None), (None, 8)])
+        arg_shape = r.choice([None, None, None, (4, 6), (7, 3), (None, 5), (3, None)])
+        ext = r.choice([None, None, (-1000.0, -2000.0, 6000.0, 3000.0), (-3.5e5, 1.25e5, 2.5e5, 7.75e5)])
+        lon = np.array([[12.0 + r.uniform(-2, 2), 16.0 + r.uniform(-2, 2)], [13.0, 18.0 + r.uniform(-1, 1)]])
+        lat = np.array([[53.0 + r.uniform(-2, 2), 54.0], [57.0 + r.uniform(-2, 2), 56.0]])
+        inp = {"instance": {"resolution": self_res, "height": self_h, "width": self_w, "area_extent": ext},
+               "freeze": {"resolution": arg_res, "shape": arg_shape}, "lons": lon.tolist(), "lats": lat.tolist()}
+        rep = None
+        if ctx.M:
+            rep = ctx.M.ask("plan", None if arg_res is None else Fraction(arg_res), None if self_res is None else Fraction(self_res),
+                            "none" if arg_shape is None else "some", *(arg_shape or (None, None)), self_h, self_w, ext is not None).split()
+        # the statement, without the model: which values win
+        win_res = arg_res if arg_res is not None else self_res
+        h, w = arg_shape if arg_shape is not None else (self_h, self_w)
+        keep = ext is not None and bool(h) and bool(w)
+        pass_shape = h is not None and w is not None
+        if rep is not None:
+            want = [("none" if win_res is None else str(Fraction(win_res))), "shape" if pass_shape else "noshape", str(h).lower() if h is not None else "none",
+                    str(w).lower() if w is not None else "none", "keep" if keep else "compute"]
+            if [rep[0] if rep[0] == "none" else str(Fraction(rep[0]))] + rep[1:] != want:
+                ctx.disagree("plan", inp, want, rep)
+        ctx.case("plan", (self_res, arg_res, self_h, self_w, arg_shape, ext is None), nontrivial=True, sample={"input": inp})
+        ctx.count("plan." + ("keep" if keep else "compute." + ("both" if (win_res is not None and pass_shape) else "res" if win_res is not None
+                                                               else "shape" if pass_shape else "neither")))
+        exc = None
+        try:
+            with warnings.catch_warnings():
+                warnings.simplefilter("ignore")
+                dyn = DynamicAreaDefinition("d", "d", crs, width=self_w, height=self_h, area_extent=ext, resolution=self_res)
+                a = dyn.freeze((lon, lat), resolution=arg_res, shape=arg_shape)
+        except Exception as e:  # noqa
+            exc = e
+        site = "DynamicAreaDefinition.freeze"
+        if keep:
+            if exc is not None:
+                ctx.fail(site, f"extent and both dimensions are given, yet freeze raised {type(exc).__name__}: {exc}", inp, tags={"family": "plan"}, size=1)
+            elif tuple(a.area_extent) != tuple(ext) or tuple(a.shape) != (h, w):
+                ctx.fail(site, "explicitly given extent and shape are not kept", inp, {"extent": list(a.area_extent), "shape": list(a.shape)},
+                         tags={"family": "plan"}, size=1)
+            continue
+        if (win_res is not None) == pass_shape:
+            # both or neither reach compute_domain: it refuses (ValueError), it must not invent a grid
+            if exc is None:
+                ctx.fail(site, "neither / both of resolution and shape were available, yet an area came back", inp,
+                         {"extent": list(a.area_extent), "shape": list(a.shape)}, tags={"family": "plan"}, size=1)
+            elif not isinstance(exc, ValueError):
+                ctx.fail(site, f"raised {type(exc).__name__}: {exc} instead of the ValueError of compute_domain", inp, tags={"family": "plan"}, size=1)
+            continue
+        if exc is not None:
+            ctx.fail(site, f"raised {type(exc).__name__}: {exc}", inp, tags={"family": "plan"}, size=1)
+            continue
+        if pass_shape and tuple(a.shape) != (h, w):
+            ctx.fail(site, f"the shape that wins ({'argument' if arg_shape is not None else 'instance'}) is {(h, w)}, the area has {tuple(a.shape)}", inp,
+                     tags={"family": "plan"}, size=1)
+        if win_res is not None and (abs(a.pixel_size_x - win_res) > 1e-9 * win_res or abs(a.pixel_size_y - win_res) > 1e-9 * win_res):
+            ctx.fail(site, f"the resolution that wins ({'argument' if arg_res is not None else 'instance'}) is {win_res}, the area has "
+                     f"{a.pixel_size_x} x {a.pixel_size_y}", inp, tags={"family": "plan"}, size=1)
+
+
 def run(ctx):
     r = ctx.rng
     n = 90 if ctx.quick else 900
@@ -531,6 +611,7 @@ def run(ctx):
     suite_wide_and_histories(ctx)
     suite_prime_meridian(ctx)
     suite_given(ctx)
+    suite_plan(ctx)
     # data over +-180 on geographic CRSs in every form: with / without an EPSG code, with / without an area of use in the PROJ database
     gpool = _geographic_pool(ctx)
     suite_antimeridian(ctx, pool=gpool, n_clouds=len(gpool) * (1 if ctx.quick else 6), suite="antimeridian-crs")
